@@ -228,6 +228,29 @@ class Lab:
         return res
 
     # ------------------------------------------------------------------ recovery: finish the workflow
+    async def probe_first(self, home, sid, trace, variant):
+        """Second recovery policy: before the interrupted step is retried, somebody merely looks at the service - a
+        connection that is opened, told the state, (variant 1: makes a request that is refused,) and closed again;
+        the server's cleanup of that connection runs to its end. Nothing in it may make the later retry impossible."""
+        self.retarget(home)
+        self.use_inprocess_server()
+        conn = wh.RawConn(self.server.uri, sid)
+        try:
+            await conn.open(5)
+        except Exception as e:
+            trace.append(f"probe connection failed: {type(e).__name__}")
+            await conn.close()
+            await self.quiesce()
+            return
+        trace.append(f"probe connection: told state {conn.init_state!r}")
+        if variant == 1:
+            with contextlib.suppress(Exception):
+                await conn.send("token", b"not-a-token", token_digest=b"x")
+                await conn.next_event(1)
+        await conn.close()
+        await self.quiesce()
+        trace.append("probe connection closed and cleaned up")
+
     async def recover_and_finish(self, home, sid, trace):
         """Returns None when the workflow ends in correct searches, else (stage, message)."""
         self.retarget(home)
@@ -379,11 +402,27 @@ async def amain(spec, acc, ctx):
                 continue
             acc.count("crashes_injected")
             trace = [f"crash {phase} event {k}: {kind} {norm_path(rel, sid_for_norm)}"]
+            home_b = None
+            if res.get("sid"):
+                home_b = home + "-probe"
+                shutil.copytree(home, home_b)
             try:
                 bad = await lab.recover_and_finish(home, res.get("sid"), trace)
+                if not bad and home_b:
+                    # the same crashed directory once more, recovered by the second policy (look first, then retry)
+                    trace2 = [trace[0], "policy: probe connection first"]
+                    await lab.probe_first(home_b, res["sid"], trace2, (k + (phase == "after")) % 2)
+                    acc.count("recoveries_with_probe_first")
+                    bad = await lab.recover_and_finish(home_b, res["sid"], trace2)
+                    if bad:
+                        bad = ("after-probe-connection:" + bad[0], "(a connection was opened, told the state and closed "
+                                                                  "before the retry) " + bad[1])
+                        trace = trace2
             except Exception as e:
                 bad = ("harness", f"{exc_site(e)} {type(e).__name__}: {e}")
                 acc.count("harness_errors")
+            if home_b:
+                shutil.rmtree(home_b, ignore_errors=True)
             if bad and bad[0] != "harness":
                 acc.count("outcome.bricked")
                 files = sorted(os.path.relpath(os.path.join(r, f), home) for r, _, fs in os.walk(os.path.join(home, ".sse"))
@@ -451,6 +490,7 @@ def finish(m, tier, seed):
         "crash_point_not_reached": c.get("crash_point_not_reached", 0),
         "distinct_event_kinds": len(m["sets"].get("point_kinds", [])),
         "final_searches_compared": c.get("final_searches_compared", 0),
+        "recoveries_with_probe_connection_first": c.get("recoveries_with_probe_first", 0),
     }
     return {"coverage": cov, "inconclusive": inc,
             "assumptions": ["crash = os._exit at a Python-level file operation with every write flushed at once; torn "
@@ -458,4 +498,7 @@ def finish(m, tier, seed):
                             "the peer component and the recovery run in the worker process with the real code pointed at "
                             "the crashed directory", "recovery policy: reconnect; redo the interrupted step unless it is "
                                                      "refused as already done; upload what the server reports missing; "
-                                                     "after a crashed create-service create a service again"]}
+                                                     "after a crashed create-service create a service again",
+                            "every crashed directory is recovered twice (on copies): at once, and after a connection "
+                            "that only looks at the service (told the state, optionally one refused request, closed, "
+                            "cleaned up)"]}
